@@ -44,7 +44,9 @@ From RU Require Import Base.Prelude Base.Utf8 Model.AsciiSet Gen.Tables Model.Pe
   Proofs.C07_Defs Proofs.C07_Histories Proofs.C07_Setters Proofs.C07_GetSet Proofs.C07_Small
   Proofs.C07_Corr Proofs.C07_EqFive Proofs.C07_EqOpaqueClass
   Proofs.C01_EqRun Proofs.C07_SpecRun Proofs.C07_SpecProto Proofs.C07_EqProto Proofs.C07_EqSix
-  Proofs.C02_Enc Proofs.C01_EqPath Proofs.C01_EqClasses Proofs.C01_EqAuth Proofs.C07_EqPathClass Proofs.C07_EqAuthClass.
+  Proofs.C02_Enc Proofs.C01_EqPath Proofs.C01_EqClasses Proofs.C01_EqAuth Proofs.C07_EqPathClass Proofs.C07_EqAuthClass
+  Model.Host Spec.WhatwgHost Spec.WhatwgHostParse Proofs.C01_EqAuthSpec Proofs.C01_EqAuthModel Proofs.C01_EqClasses2 Proofs.C01_EqAuthHost
+  Proofs.C07_EqAuthParse Proofs.C07_EqAuthHost.
 
 (* ---------- the statement ---------- *)
 
@@ -377,13 +379,7 @@ Print Assumptions C07_protocol_equiv.
 (* the invariants are kept by the Standard's protocol setter and by the five setters above *)
 Theorem C07_sane_kept : forall shp s su v su', six s = true -> sane su ->
   spec_step shp s su v = Some su' -> sane su'.
-Proof.
-  intros shp s su v su' Hs S H. destruct (five s) eqn:H5; [exact (spec_five_sane shp s su v su' H5 S H)|].
-  destruct s; try discriminate Hs; try discriminate H5.
-  unfold spec_step in H. cbn [setter_of_q] in H.
-  destruct (spec_set shp SetProtocol su v) as [x|] eqn:E; [|discriminate H]. injection H as <-.
-  exact (spec_protocol_sane shp su v x S E).
-Qed.
+Proof. exact spec_six_sane. Qed.
 Print Assumptions C07_sane_kept.
 
 (* ... and they are needed: a pair related by corr whose Standard's record is "http:/p" without a host
@@ -527,6 +523,86 @@ Theorem C07_auth_canonical_corrS : forall dbg shs sch un pw ht hi sh po segs q f
                 (spec_auth_url sch un pw sh po segs q f).
 Proof. exact corrS_auth. Qed.
 Print Assumptions C07_auth_canonical_corrS.
+
+(* parsing yields records related by corrS on the authority class of the C01 equivalence: no base,
+   non-special scheme, "scheme://[userinfo@]host[:port][/path][?q][#f]" (in_class_authority: every such
+   scalar-value input except authority ":@", a port directly followed by '\' - F-C01-8 - and ".." meeting a
+   drive-letter-shaped segment - F-C01-9).  The host functions of the two sides are arbitrary functions
+   that agree on the ONE string they are applied to: host_agree of C01 (same text, not led by ':', empty
+   exactly for the empty string) and host_extra (the model's host is the empty domain exactly when the
+   Standard's is the empty host; the text is not led by '@').  Both parsers fail, or the model reports
+   Overflow, or the two records are related. *)
+Theorem C07_authority_class_corrS : forall dbg hp hpo hd ovr shp shs input, usv_list input ->
+  in_class_authority input = true ->
+  host_agree hpo hd shp shs (class_host_text input) -> host_extra hpo hd shp (class_host_text input) ->
+  match spec_basic_url_parse shp input None with
+  | BDone su => parse_url dbg hp hpo hd ovr None input = PErr Overflow
+                \/ exists u, parse_url dbg hp hpo hd ovr None input = POk u /\ corrS dbg shs u su
+  | BFailure _ => exists e, parse_url dbg hp hpo hd ovr None input = PErr e
+  | BOutOfFuel => False
+  end.
+Proof. exact authority_class_corrS. Qed.
+Check C07_authority_class_corrS : forall dbg hp hpo hd ovr shp shs input, usv_list input ->
+  in_class_authority input = true ->
+  host_agree hpo hd shp shs (class_host_text input) -> host_extra hpo hd shp (class_host_text input) ->
+  match spec_basic_url_parse shp input None with
+  | BDone su => parse_url dbg hp hpo hd ovr None input = PErr Overflow
+                \/ exists u, parse_url dbg hp hpo hd ovr None input = POk u /\ corrS dbg shs u su
+  | BFailure _ => exists e, parse_url dbg hp hpo hd ovr None input = PErr e
+  | BOutOfFuel => False
+  end.
+Print Assumptions C07_authority_class_corrS.
+
+(* ... so C07_statement holds restricted to start URLs of that class and to the six setters, histories
+   included *)
+Theorem C07_six_authority_class : forall dbg hp hpo hd shp shs input u ops, usv_list input ->
+  in_class_authority input = true ->
+  host_agree hpo hd shp shs (class_host_text input) -> host_extra hpo hd shp (class_host_text input) ->
+  parse_url dbg hp hpo hd None None input = POk u ->
+  six_ops ops -> outside_known dbg hp hpo hd u ops ->
+  exists su, spec_basic_url_parse shp input None = BDone su
+    /\ model_api dbg u = Some (spec_api_list shs su)
+    /\ forall n, exists u' su',
+         model_run dbg hp hpo hd u (firstn n ops) = Some u'
+         /\ spec_run shp su (firstn n ops) = Some su'
+         /\ model_api dbg u' = Some (spec_api_list shs su').
+Proof. exact six_from_authority_class_plain. Qed.
+Check C07_six_authority_class : forall dbg hp hpo hd shp shs input u ops, usv_list input ->
+  in_class_authority input = true ->
+  host_agree hpo hd shp shs (class_host_text input) -> host_extra hpo hd shp (class_host_text input) ->
+  parse_url dbg hp hpo hd None None input = POk u ->
+  six_ops ops -> outside_known dbg hp hpo hd u ops ->
+  exists su, spec_basic_url_parse shp input None = BDone su
+    /\ model_api dbg u = Some (spec_api_list shs su)
+    /\ forall n, exists u' su',
+         model_run dbg hp hpo hd u (firstn n ops) = Some u'
+         /\ spec_run shp su (firstn n ops) = Some su'
+         /\ model_api dbg u' = Some (spec_api_list shs su').
+Print Assumptions C07_six_authority_class.
+
+(* the two hypotheses on the host functions hold for the host functions as they are - Host::parse_opaque +
+   Display (Model/Host.v) and the Standard's host parser / serializer (Spec/WhatwgHostParse.v), any IDNA
+   oracle - on every string that does not start with '[' *)
+Theorem C07_host_hyps_real : forall idna s, usv_list s -> Host.starts_with 91 s = false ->
+  host_agree host_parse_opaque host_display (spec_host_parser idna) spec_host_serializer s
+  /\ host_extra host_parse_opaque host_display (spec_host_parser idna) s.
+Proof. exact host_hyps_real. Qed.
+Print Assumptions C07_host_hyps_real.
+
+(* non-vacuity with the real host functions: " N://u:p@q@H.x:080/a/../b?q#f" is in the class and its host
+   text "H.x" meets both hypotheses *)
+Example C07_authority_class_inhabited :
+  let i1 := [32; 78; 58; 47; 47; 117; 58; 112; 64; 113; 64; 72; 46; 120; 58; 48; 56; 48; 47; 97; 47; 46; 46; 47; 98; 63; 113; 35; 102] in
+  usv_list i1 /\ in_class_authority i1 = true /\ class_host_text i1 = [72; 46; 120]
+  /\ host_agree host_parse_opaque host_display (spec_host_parser (fun x => Some x)) spec_host_serializer (class_host_text i1)
+  /\ host_extra host_parse_opaque host_display (spec_host_parser (fun x => Some x)) (class_host_text i1).
+Proof.
+  cbv zeta. split; [repeat constructor; vm_compute; auto|]. split; [vm_compute; reflexivity|].
+  split; [vm_compute; reflexivity|].
+  assert (class_host_text [32; 78; 58; 47; 47; 117; 58; 112; 64; 113; 64; 72; 46; 120; 58; 48; 56; 48; 47; 97; 47; 46; 46; 47; 98; 63; 113; 35; 102]
+          = [72; 46; 120]) as -> by (vm_compute; reflexivity).
+  apply C07_host_hyps_real; [repeat constructor; vm_compute; auto | reflexivity].
+Qed.
 
 (* the 20 start URLs of the small scope and the 15 of the protocol table (special, file, non-special,
    opaque path, empty host, credentials, port, "/." marker) are related by corrS to their Standard's
